@@ -1239,6 +1239,19 @@ pub fn c17(thorough: bool, stats: &mut Stats) -> Vec<Failure> {
         ("crlf", b"local   x  =  1\r\ndo\r\nx()\r\nend\r\n".to_vec()),
         ("no-final-newline", b"do\nx()\nend".to_vec()),
         ("1MiB", big(1)),
+        // a long last line without a final newline (short writes / line buffering)
+        ("long-last-line", {
+            let mut v = b"-- header\nlocal t = { ".to_vec();
+            v.extend(std::iter::repeat(b"1, ".to_vec()).take(1400).flatten());
+            v.extend_from_slice(b"2 }");
+            v
+        }),
+        ("1MiB-one-line", {
+            let mut v = b"local s = \"".to_vec();
+            v.extend(std::iter::repeat(b'a').take(1024 * 1024));
+            v.extend_from_slice(b"\"");
+            v
+        }),
     ];
     if thorough {
         inputs.push(("4MiB", big(4)));
@@ -1268,7 +1281,7 @@ pub fn c17(thorough: bool, stats: &mut Stats) -> Vec<Failure> {
         for (oname, oargs) in &opt_sets {
             for (fname, fargs) in &filepaths {
                 for with_cfg in [false, true] {
-                    if bytes.len() > 100_000 && (*oname != "plain" || *fname != "none" || with_cfg) {
+                    if bytes.len() > 100_000 && (*oname != "plain" || !matches!(*fname, "none" | "ignored.lua+respect") || with_cfg) {
                         continue;
                     }
                     let mut t = Tree::default();
@@ -1283,7 +1296,19 @@ pub fn c17(thorough: bool, stats: &mut Stats) -> Vec<Failure> {
                     argv.push("-".into());
                     let desc = format!("C17 input={} options={} stdin_filepath={} stylua.toml={}", iname, oname, fname, with_cfg);
                     metas.push((iname.to_string(), oname.to_string(), fname.to_string(), with_cfg));
-                    scs.push(Scenario { desc, tree: t, run: Run { argv, stdin: Some(bytes.clone()), ..Run::default() } });
+                    scs.push(Scenario { desc, tree: t.clone(), run: Run { argv: argv.clone(), stdin: Some(bytes.clone()), ..Run::default() } });
+                    // the same from a sub-directory with --search-parent-directories: the configuration (and the ignore
+                    // file) of the parent must be found
+                    if bytes.len() < 100_000 && *oname == "plain" {
+                        let mut argv2 = argv.clone();
+                        argv2.insert(2, "--search-parent-directories".into());
+                        let desc = format!("C17 input={} options=plain+search-parents(cwd=deep/er) stdin_filepath={} stylua.toml={}", iname, fname, with_cfg);
+                        // --stdin-filepath is resolved against the working directory: keep only the forms that do not depend on it
+                        if *fname == "none" {
+                            metas.push((iname.to_string(), oname.to_string(), fname.to_string(), with_cfg));
+                            scs.push(Scenario { desc, tree: t, run: Run { argv: argv2, cwd: "deep/er".into(), stdin: Some(bytes.clone()), ..Run::default() } });
+                        }
+                    }
                 }
             }
         }
